@@ -175,6 +175,14 @@ def _parse_unit(text, base_dir=None):
                     else:  # the block is verified separately (lifted in another extract); here it is replaced by a call
                         ex.block_repl = (ma.group(1), ma.group(3))
                     cur = None
+                elif k == "tail":
+                    # tail `ANCHOR` lifted_as `sig`: the statements of the function from ANCHOR (the start of a statement at the
+                    # top level of the body) to the function's end become the body of the function `sig`
+                    ma = re.match(r"`(.*)`\s+lifted_as\s+`(.*)`\s*$", rest)
+                    if not ma:
+                        raise ValueError("bad tail directive: %r" % l2)
+                    ex.lift_tail = (ma.group(1), ma.group(2))
+                    cur = None
                 elif k == "strip_logs":
                     ex.strip_logs = True
                     cur = None
@@ -416,6 +424,15 @@ def transform(ex, src):
               "lines": [src.line_of(it.start), src.line_of(it.body_close)],
               "sha256": sha256_text(orig), "transformations": []}
     text = orig
+    if getattr(ex, "lift_tail", None):
+        anc, lsig = ex.lift_tail
+        if text.count(anc) != 1:
+            raise LostAnchor("%s: tail anchor %r occurs %d times, expected 1" % (ex.anchor, anc, text.count(anc)))
+        at = text.index(anc)
+        record["lines"] = [src.line_of(it.start + at), src.line_of(it.body_close)]
+        record["sha256"] = sha256_text(text[at:])
+        record["transformations"].append("T7 the function's statements from %r to its end lifted to `%s { .. }`; free variables become parameters" % (anc, lsig))
+        text = lsig + " {\n\t\t" + text[at:]
     if getattr(ex, "block_repl", None):
         anc, rep = ex.block_repl
         bo, k = _block_after(ex, text, anc)
@@ -526,6 +543,11 @@ def transform(ex, src):
     body = text[body_open:]
     sig = re.sub(r"\bpub\s*\(\s*crate\s*\)", "pub", sig)
     for old, new, cnt in ex.sig_rewrites:
+        if cnt == -1:  # optional (`x?`): a parameter the function may no longer take
+            if old in sig:
+                sig = sig.replace(old, new)
+                record["transformations"].append("T5 signature %r => %r (optional)" % (old, new))
+            continue
         if sig.count(old) != cnt:
             raise LostAnchor("%s: sig rewrite anchor %r occurs %d times" % (ex.anchor, old, sig.count(old)))
         sig = sig.replace(old, new)
